@@ -405,7 +405,7 @@ impl PersistenceManager {
             && self.tenants.usage@ == o.tenants.usage@ && self.tenants.tenants@ == o.tenants.tenants@
     }
 
-//@fn PersistenceManager::persist_create_node from=pm selfmut ret=r props=C16,C18
+//@fn PersistenceManager::persist_create_node from=pm selfmut ret=r props=C16,C18,C32
 //@requires
         old(self).inv(),
         !old(self).storage.nodes@.contains_key((tenant@, node.id.0)),      // ids are fresh (the caller allocates them)
@@ -429,7 +429,7 @@ impl PersistenceManager {
         }
 //@end
 
-//@fn PersistenceManager::persist_create_edge from=pm selfmut ret=r props=C16,C18
+//@fn PersistenceManager::persist_create_edge from=pm selfmut ret=r props=C16,C18,C32
 //@requires
         old(self).inv(),
         !old(self).storage.edges@.contains_key((tenant@, edge.id.0)),      // ids are fresh (the caller allocates them)
@@ -455,7 +455,7 @@ impl PersistenceManager {
         }
 //@end
 
-//@fn PersistenceManager::persist_delete_node from=pm selfmut ret=r props=C16,C18
+//@fn PersistenceManager::persist_delete_node from=pm selfmut ret=r props=C16,C18,C32
 //@requires
         old(self).inv(),
         old(self).storage.nodes@.contains_key((tenant@, node_id)),      // callers delete what they created
@@ -478,7 +478,7 @@ impl PersistenceManager {
         }
 //@end
 
-//@fn PersistenceManager::persist_delete_edge from=pm selfmut ret=r props=C16,C18
+//@fn PersistenceManager::persist_delete_edge from=pm selfmut ret=r props=C16,C18,C32
 //@requires
         old(self).inv(),
         old(self).storage.edges@.contains_key((tenant@, edge_id)),      // callers delete what they created
